@@ -688,12 +688,13 @@ class ExpressionValue(Value):
         address_index = self.left.int if self.left.is_address() else self.right.int
         additional_value = self.left.int if self.left.is_numeric() else self.right.int
         address = statements[address_index].code_pkg.address.int
+        # Addresses are 16-bit quantities, so results wrap around at 64K
         if self.operation == "+":
-            return NumericValue(address + additional_value, size_hint=4, mode=ExplicitAddressingMode.EXTENDED)
+            return NumericValue((address + additional_value) & 0xFFFF, size_hint=4, mode=ExplicitAddressingMode.EXTENDED)
         elif self.operation == "-":
-            return NumericValue(address - additional_value, size_hint=4, mode=ExplicitAddressingMode.EXTENDED)
+            return NumericValue((address - additional_value) & 0xFFFF, size_hint=4, mode=ExplicitAddressingMode.EXTENDED)
         elif self.operation == "*":
-            return NumericValue(address * additional_value, size_hint=4, mode=ExplicitAddressingMode.EXTENDED)
+            return NumericValue((address * additional_value) & 0xFFFF, size_hint=4, mode=ExplicitAddressingMode.EXTENDED)
         else:
             return NumericValue(int(address / additional_value), size_hint=4, mode=ExplicitAddressingMode.EXTENDED)
 
